@@ -358,6 +358,11 @@ Proof.
   assert (wf_db d1) by (eapply wf_eng_get; eauto).
   destruct g1 as [v| |]; [destruct v|..]; inversion H; subst; assumption.
 Qed.
+Lemma wf_eng_rename d o n ok d' : wf_db d -> eng_rename d o n = (ok, d') -> wf_db d'.
+Proof.
+  intros Hw E. unfold eng_rename in E. destruct (get_entry d o) as [e|]; inversion E; subst; [|exact Hw].
+  destruct (e_exp e); auto 8 with wfdb.
+Qed.
 Lemma wf_del_loop : forall args d n m d', wf_db d -> del_loop d args n = (m, d') -> wf_db d'.
 Proof.
   induction args as [|a args IH]; intros d n m d' Hw H; cbn [del_loop] in H.
@@ -431,8 +436,18 @@ Proof.
   - unfold h_getrange in H1. wf_solve.
   - unfold h_setrange in H1. wf_solve.
   - unfold h_type in H1. wf_solve.
-  - unfold h_rename, eng_rename in H1. wf_solve.
-  - unfold h_renamenx, eng_rename in H1. wf_solve.
+  - unfold h_rename in H1. destruct (negb (nparts parts =? 3)); [inversion H1; subst; exact Hw|].
+    destruct (nth_arg parts 1); [|inversion H1; subst; exact Hw].
+    destruct (nth_arg parts 2); [|inversion H1; subst; exact Hw].
+    destruct (eng_rename d b b0) as [ok d1] eqn:E. pose proof (wf_eng_rename _ _ _ _ _ Hw E).
+    destruct ok; inversion H1; subst; assumption.
+  - unfold h_renamenx in H1. destruct (negb (nparts parts =? 3)); [inversion H1; subst; exact Hw|].
+    destruct (nth_arg parts 1); [|inversion H1; subst; exact Hw].
+    destruct (nth_arg parts 2); [|inversion H1; subst; exact Hw].
+    destruct (negb (eng_exists now d b)); [inversion H1; subst; exact Hw|].
+    destruct (eng_exists now d b0); [inversion H1; subst; exact Hw|].
+    destruct (eng_rename d b b0) as [ok d1] eqn:E. pose proof (wf_eng_rename _ _ _ _ _ Hw E).
+    destruct ok; inversion H1; subst; assumption.
   - unfold h_keys in H1. wf_solve.
   - unfold h_dbsize in H1. wf_solve.
   - unfold h_flushdb in H1. wf_solve.
@@ -512,16 +527,37 @@ Proof.
 Qed.
 
 (** RENAME: the destination gets exactly the source's entry (value and deadline), the source
-    disappears, every other key is untouched *)
+    disappears, every other key is untouched; and (10c8230) the deadline index follows: the
+    destination is indexed with exactly the deadline that travelled, the source no longer *)
+Definition index_of (d : db) (k : bytes) : option Z := alookup k (d_index d).
+Lemma index_of_put d k e k' : index_of (put_entry d k e) k' = index_of d k'.
+Proof. reflexivity. Qed.
+Lemma index_of_del_entry d k k' : index_of (del_entry d k) k' = index_of d k'.
+Proof. reflexivity. Qed.
 Lemma rename_spec d o n e k : get_entry d o = Some e ->
   let d' := snd (eng_rename d o n) in
   get_entry d' n = Some e /\
   (beq o n = false -> get_entry d' o = None) /\
-  (beq k o = false -> beq k n = false -> get_entry d' k = get_entry d k).
+  (beq k o = false -> beq k n = false -> get_entry d' k = get_entry d k) /\
+  index_of d' n = e_exp e /\
+  (beq o n = false -> index_of d' o = None) /\
+  (beq k o = false -> beq k n = false -> index_of d' k = index_of d k).
 Proof.
-  intros Hg. unfold eng_rename. rewrite Hg. cbn [snd]. split; [apply get_entry_put_same|]. split.
-  - intros Hn. rewrite get_entry_put_other by exact Hn. apply get_entry_del_same.
-  - intros H1 H2. rewrite get_entry_put_other by exact H2. apply get_entry_del_other; exact H1.
+  intros Hg. unfold eng_rename. rewrite Hg. cbn [snd]. cbv zeta.
+  split; [apply get_entry_put_same|]. split; [|split; [|split; [|split]]].
+  - intros Hn. rewrite get_entry_put_other by exact Hn.
+    destruct (e_exp e); [rewrite get_entry_index|]; rewrite !get_entry_index_del; apply get_entry_del_same.
+  - intros H1 H2. rewrite get_entry_put_other by exact H2.
+    destruct (e_exp e); [rewrite get_entry_index|]; rewrite !get_entry_index_del; apply get_entry_del_other; exact H1.
+  - rewrite index_of_put. unfold index_of. destruct (e_exp e); cbn [index_set index_del d_index].
+    + apply alookup_aset_same.
+    + apply alookup_aremove_same.
+  - intros Hn. rewrite index_of_put. unfold index_of. destruct (e_exp e); cbn [index_set index_del del_entry d_index].
+    + rewrite alookup_aset_other by exact Hn. apply alookup_aremove_same.
+    + rewrite alookup_aremove_other by exact Hn. apply alookup_aremove_same.
+  - intros H1 H2. rewrite index_of_put. unfold index_of. destruct (e_exp e); cbn [index_set index_del del_entry d_index].
+    + rewrite alookup_aset_other by exact H2. apply alookup_aremove_other; exact H1.
+    + rewrite alookup_aremove_other by exact H2. apply alookup_aremove_other; exact H1.
 Qed.
 
 (** SET with NX / XX: NX writes only when the key is absent (or expired), XX only when present *)
